@@ -422,6 +422,39 @@ def check_stack_imports(ctx, rule='R-STDIMPORT'):
     ctx.floor('stack methods examined for imports', n, 4)
 
 
+def check_stack_time_units(ctx, rule='R-TIMEUNITS'):
+    """a stack override that rebuilds the time coordinate writes the unit word that belongs to its own conversion factor: values
+    computed as total_seconds() / 3600 are hours, whatever unit the inputs used"""
+    ctx.rule(rule, 'stack overrides that rebuild the time coordinate: the unit word of the new units string matches the divisor applied to total_seconds()')
+    UNIT = {3600: 'hours', 60: 'minutes', 1: 'seconds', 86400: 'days'}
+    n = 0
+    for m in ctx.src.all_modules():
+        for q, fn in sorted(m.functions.items()):
+            if q.split('.')[-1] != 'stack' or '<locals>' in q:
+                continue
+            ust = [st for st in iter_stmts(fn.body) if isinstance(st, ast.Assign) and any(isinstance(t, ast.Attribute) and t.attr == 'units' for t in st.targets) and 'since' in norm(st.value)]
+            divs = [x.right.value for x in ast.walk(fn) if isinstance(x, ast.BinOp) and isinstance(x.op, ast.Div) and isinstance(x.right, ast.Constant)
+                    and 'total_seconds' in norm(x.left) and isinstance(x.right.value, (int, float))]
+            if not ust or not divs:
+                continue
+            n += 1
+            where = 'src/PseudoNetCDF/%s %s' % (m.relpath, q)
+            want = UNIT.get(int(divs[0]))
+            v = ust[-1].value
+            lead = v
+            while isinstance(lead, ast.BinOp) and isinstance(lead.op, ast.Add):
+                lead = lead.left
+            word = const_str(lead).split()[0] if const_str(lead) else None
+            if want is None:
+                ctx.undec(rule, q, where, 'divisor %r is no time unit' % divs[0])
+            elif word == want:
+                ctx.ok(rule, q, where, "values in %s (total_seconds() / %s), units '%s since ...'" % (want, divs[0], word))
+            else:
+                ctx.violation(Finding(rule, m.relpath, q, ust[-1], 'the new time values are total_seconds() / %s, i.e. %s, but the units string starts with %s: for inputs whose time axis is not in %s the '
+                                      'decoded times of the stacked file are compressed or stretched' % (divs[0], want, ('the literal %r' % word) if word else ('%s (taken from the input)' % norm(lead)), want)))
+    ctx.count('stack overrides that rebuild a time coordinate', n)
+
+
 def check_delegate(ctx, rp, q):
     fn = ctx.src.mod(rp).func(q)
     where = 'src/PseudoNetCDF/%s %s' % (rp, q)
@@ -529,6 +562,7 @@ def run(ctx):
     ctx.count('for/else loops in the multi-file helpers', n)
     ctx.floor('default stack dimension searches', nsd, 1)
     check_stack_imports(ctx)
+    check_stack_time_units(ctx)
     # ---- R-PASSMASK: variables the string forms pass through keep their mask
     from .. import lints as _lp
     ctx.rule('R-PASSMASK', 'variables that an operation passes through unchanged keep their mask: the converter copy does not fill an in-memory masked target')
